@@ -45,6 +45,9 @@ fn truth_sql(sql: &str, weighted: bool) -> Option<&'static str> {
         ("SELECT amount, count(*) AS c FROM orders GROUP BY amount", true) => "SELECT amount, count(DISTINCT user_id) FROM orders GROUP BY amount",
         ("SELECT id, age, count(*) AS c FROM users GROUP BY id, age", _) => "SELECT id, age, count(DISTINCT id) FROM users GROUP BY id, age",
         ("SELECT age, sum(id) AS s FROM users WHERE city = 'A' GROUP BY age", _) => "SELECT age, count(DISTINCT id) FROM users WHERE city = 'A' GROUP BY age",
+        ("SELECT user_id, amount, count(*) AS c FROM orders GROUP BY user_id, amount", _) => "SELECT o.user_id, o.amount, count(DISTINCT u.id) FROM orders o JOIN users u ON o.user_id = u.id GROUP BY o.user_id, o.amount",
+        ("SELECT amount, sum(amount) AS s FROM orders GROUP BY amount", _) => "SELECT o.amount, count(DISTINCT u.id) FROM orders o JOIN users u ON o.user_id = u.id GROUP BY o.amount",
+        ("SELECT id, amount, count(*) AS c FROM orders GROUP BY id, amount", _) => "SELECT o.id, o.amount, count(DISTINCT u.id) FROM orders o JOIN users u ON o.user_id = u.id GROUP BY o.id, o.amount",
         _ => return None,
     })
 }
@@ -65,11 +68,34 @@ struct Pipeline {
     cu: f64,
 }
 
+fn find_node<'a>(r: &'a qrlew::relation::Relation, name: &str) -> Option<&'a qrlew::relation::Relation> {
+    if r.name() == name {
+        return Some(r);
+    }
+    r.inputs().into_iter().find_map(|i| find_node(i, name))
+}
+
+/// The key-release pipeline of the rewritten relation: the threshold filter, the noise map feeding it, the Reduce
+/// that counts the units per key and THE RELATION THAT REDUCE READS — the (key, unit) table, whether or not the IR
+/// reader recognises a contribution limit in front of it (Cu is then the parameter handed to the compiler).
 fn pipeline(c: &Compiled) -> Option<Pipeline> {
     let t = c.ir.thresholds.first()?;
     let n = c.ir.noised.iter().find(|n| n.column == t.column)?;
-    let l = c.ir.limits.first()?;
-    Some(Pipeline { limit_node: l.node.clone(), count_node: n.input_node.clone(), noise_node: n.node.clone(), filter_node: t.node.clone(), tau: t.tau, cu: l.cu })
+    let count = find_node(&c.rewritten, &n.input_node)?;
+    // below the count: the first relation (through projections that only rename) that still names the unit column
+    let mut cur: &qrlew::relation::Relation = count.inputs().first().copied()?;
+    loop {
+        if cur.schema().iter().any(|f| f.name() == "_PRIVACY_UNIT_") {
+            break;
+        }
+        match cur {
+            qrlew::relation::Relation::Map(m) => cur = m.input(),
+            _ => return None,
+        }
+    }
+    let limit_node = cur.name().to_string();
+    let cu = c.ir.limits.first().map(|l| l.cu).unwrap_or(c.dp.max_privacy_unit_groups as f64);
+    Some(Pipeline { limit_node, count_node: n.input_node.clone(), noise_node: n.node.clone(), filter_node: t.node.clone(), tau: t.tau, cu })
 }
 
 fn scripts(k: usize, deviations: usize) -> Vec<Vec<f64>> {
@@ -133,6 +159,39 @@ pub fn run(ctx: &Ctx) -> Report {
         }
     }
     head.set("configs", configs.len() as u64);
+    explore(ctx, &mut head, &world, configs, None);
+    // second world: a unit can hold three groups (three orders), key columns of several declared types
+    for variant in ["declared", "narrow-int", "unbounded"] {
+        let w = key_world(variant);
+        let relations = w.relations();
+        let mut configs: Vec<Compiled> = vec![];
+        for q in key_world_queries() {
+            for cu in [1u64, 2] {
+                let name = format!("eps=1,delta=0.001,cu={cu},tau_share=0.5,pu=fk-path,types={variant}");
+                if !ctx.wants(&format!("{} [{}]", q.sql, name)) {
+                    continue;
+                }
+                let dp = DpParameters::new(1.0, 1e-3, 0.5, 100.0, 1.0, cu);
+                match compile_dp_with(&q, &name, &dp, &relations, crate::c18::privacy_unit()) {
+                    CompileOutcome::Ok(c) => configs.push(c),
+                    CompileOutcome::Refused(e) => head.reach("refused", &format!("{} :: {}", q.sql, e.chars().take(60).collect::<String>())),
+                    CompileOutcome::Panic(p) => head.reach("panic_sites(left to C18)", &p.site()),
+                }
+            }
+        }
+        head.add_count("configs_key_world", configs.len() as u64);
+        explore(ctx, &mut head, &w, configs, Some(5));
+    }
+    head.sample(json!({"query": "SELECT age, count(*) AS c FROM users GROUP BY age", "database": {"users": ["(1,18,'A')", "(2,18,'B')"]}, "random_script": [1.0, 1.0, 1e-300], "observed": "limited (key, unit) table, unit count 2 for key 18, noisy count 2 + sigma*sqrt(-2 ln 1e-300), tau, released keys"}));
+    head.rule = "grouped DP queries (private key, mixed public/private keys, computed key, key along the foreign-key path, public key) x Cu in {1,2,5} x privacy unit given by the foreign-key path or directly with a per-row weight x ALL database instances of the compact world x ALL random scripts within the deviation bound (default answer 1.0 = zero noise; alphabet {0.25, 1e-300, 0.75} (thorough {0.5, 0.25, 1e-300, 0.75, 0.1}) at <= 1 (thorough 2) of the first K draws, K = draws of one materialisation, <= 10); node-by-node materialisation; oracle: (1) a key passes the filter only if its noisy count in this execution > the tau literal, and every released row's private key passed; (3) after the contribution limit no unit holds more than Cu groups, for every script; (4) the count fed to the noise = distinct units holding the key in the limited table, and <= the number of distinct units holding the key in the database (ground truth by a hand-written SQL query per subject); (5) with zero noise no singleton key is released. non-trivial = executions in which some key exceeds tau".into();
+    head.assumptions = vec!["tau and sigma_count against the closed forms are checked by C03".into(), "scripts deviate in the first K <= 10 draws only".into()];
+    head
+}
+
+
+/// every database of `world` x every random script within the deviation bound, for every configuration
+fn explore(ctx: &Ctx, head: &mut Report, world: &World, configs: Vec<Compiled>, total_rows: Option<usize>) {
+    let level = "fault_enumeration";
     let deviations = ctx.tier.pick(1usize, 2usize);
     let mut by_tables: BTreeMap<Vec<&'static str>, Vec<Compiled>> = BTreeMap::new();
     for c in configs {
@@ -140,16 +199,16 @@ pub fn run(ctx: &Ctx) -> Report {
     }
     let tier = ctx.tier;
     for (tables, cs) in by_tables {
-        let n = match (tier, tables.len()) {
+        let n = total_rows.unwrap_or(match (tier, tables.len()) {
             (_, 1) => 2,
             (Tier::Quick, _) => 3,
             (Tier::Thorough, _) => 3,
-        };
+        });
         let dbs = world.databases(&tables, n);
         head.reach("databases_per_table_set", &format!("{}:{}", tables.join("+"), dbs.len()));
         let chunk = (dbs.len() / 48).max(1);
         let chunks: Vec<Vec<Db>> = dbs.chunks(chunk).map(|c| c.to_vec()).collect();
-        let world = &world;
+        
         let cs = &cs;
         let part = par_reports(chunks, level, move |dbs, r| {
             let e = new_engine(world);
@@ -205,6 +264,9 @@ pub fn run(ctx: &Ctx) -> Report {
                             }
                         };
                         // (3) every unit holds at most Cu groups in the limited table, whatever ranking the draws induce
+                        if limited.cols.iter().position(|x| x == "_PRIVACY_UNIT_").is_none() {
+                            r.machinery_errors.push(format!("C04: the (key, unit) table of {case_id} has no unit column"));
+                        }
                         if let Some(ui) = limited.cols.iter().position(|x| x == "_PRIVACY_UNIT_") {
                             let mut per_unit: BTreeMap<String, BTreeSet<String>> = BTreeMap::new();
                             let kidx: Vec<usize> = (0..limited.cols.len()).filter(|i| *i != ui && !limited.cols[*i].starts_with('_')).collect();
@@ -302,10 +364,71 @@ pub fn run(ctx: &Ctx) -> Report {
         });
         head.merge(part);
     }
-    head.sample(json!({"query": "SELECT age, count(*) AS c FROM users GROUP BY age", "database": {"users": ["(1,18,'A')", "(2,18,'B')"]}, "random_script": [1.0, 1.0, 1e-300], "observed": "limited (key, unit) table, unit count 2 for key 18, noisy count 2 + sigma*sqrt(-2 ln 1e-300), tau, released keys"}));
-    head.rule = "grouped DP queries (private key, mixed public/private keys, computed key, key along the foreign-key path, public key) x Cu in {1,2,5} x privacy unit given by the foreign-key path or directly with a per-row weight x ALL database instances of the compact world x ALL random scripts within the deviation bound (default answer 1.0 = zero noise; alphabet {0.25, 1e-300, 0.75} (thorough {0.5, 0.25, 1e-300, 0.75, 0.1}) at <= 1 (thorough 2) of the first K draws, K = draws of one materialisation, <= 10); node-by-node materialisation; oracle: (1) a key passes the filter only if its noisy count in this execution > the tau literal, and every released row's private key passed; (3) after the contribution limit no unit holds more than Cu groups, for every script; (4) the count fed to the noise = distinct units holding the key in the limited table, and <= the number of distinct units holding the key in the database (ground truth by a hand-written SQL query per subject); (5) with zero noise no singleton key is released. non-trivial = executions in which some key exceeds tau".into();
-    head.assumptions = vec!["tau and sigma_count against the closed forms are checked by C03".into(), "scripts deviate in the first K <= 10 draws only".into()];
-    head
+}
+
+/// users(id {1,2}, age {18}, city {'A'}) <= 2 rows; orders(id {1,2,3} unique, user_id {1,2}, amount {0,5,10}) <= 3 rows:
+/// a unit can own three orders, i.e. three groups of (user_id, amount) or (id, amount). `variant` sets the declared
+/// types of the key columns: "declared" (as E-world), "narrow-int" (user_id int[1,2], id int[1,3], age int{18}),
+/// "unbounded" (amount float, city text without value set, user_id int[1,2])
+fn key_world(variant: &str) -> World {
+    use crate::sqlite::Cell;
+    use qrlew::data_type::DataType;
+    let mut w = World::standard();
+    for t in w.tables.iter_mut() {
+        match t.name {
+            "users" => {
+                t.max_rows = 2;
+                for c in t.cols.iter_mut() {
+                    match c.name {
+                        "id" => c.domain = vec![Cell::Int(1), Cell::Int(2)],
+                        "age" => {
+                            c.domain = vec![Cell::Int(18)];
+                            if variant == "narrow-int" {
+                                c.data_type = DataType::integer_value(18);
+                            }
+                        }
+                        _ => {
+                            c.domain = vec![Cell::Text("A".into())];
+                            if variant == "unbounded" {
+                                c.data_type = DataType::text();
+                            }
+                        }
+                    }
+                }
+            }
+            "orders" => {
+                t.max_rows = 3;
+                for c in t.cols.iter_mut() {
+                    match c.name {
+                        "id" => c.domain = vec![Cell::Int(1), Cell::Int(2), Cell::Int(3)],
+                        "user_id" => {
+                            c.domain = vec![Cell::Int(1), Cell::Int(2)];
+                            if variant != "declared" {
+                                c.data_type = DataType::integer_interval(1, 2);
+                            }
+                        }
+                        _ => {
+                            c.domain = vec![Cell::Real(0.0), Cell::Real(5.0), Cell::Real(10.0)];
+                            c.data_type = if variant == "unbounded" { DataType::float() } else { DataType::float_interval(0.0, 10.0) };
+                        }
+                    }
+                }
+            }
+            _ => {}
+        }
+    }
+    w
+}
+
+fn key_world_queries() -> Vec<DpQuery> {
+    let o: &[&'static str] = &["users", "orders"];
+    let mk = |sql: &str, tags: &[&'static str]| DpQuery { sql: sql.to_string(), tables: o.to_vec(), tags: tags.to_vec() };
+    vec![
+        mk("SELECT user_id, amount, count(*) AS c FROM orders GROUP BY user_id, amount", &["two-private-keys", "fk-path", "key-world"]),
+        mk("SELECT amount, sum(amount) AS s FROM orders GROUP BY amount", &["private-key", "fk-path", "key-world"]),
+        mk("SELECT id, amount, count(*) AS c FROM orders GROUP BY id, amount", &["two-private-keys", "unique-key", "fk-path", "key-world"]),
+        mk("SELECT u.city, o.amount, count(*) AS c FROM users u JOIN orders o ON u.id = o.user_id GROUP BY u.city, o.amount", &["two-private-keys", "join", "key-world"]),
+    ]
 }
 
 /// computed keys (e.g. `age > 18`) are released as derived values (0/1): their private component is
